@@ -447,6 +447,7 @@ class Interp:
     def bind_entry(self, params_src):
         """Bind argv to the parameters of @is_you following the %argv conventions."""
         argv = list(self.argv)
+        params_src = [(p[0], p[1]) for p in params_src]
         arr_i = [i for i, (t, _) in enumerate(params_src) if is_arr(t)]
         vals = []
         n = len(params_src)
